@@ -133,7 +133,7 @@ pub fn effective_ops(b: &Bench, model: u16, kind: u8, msg: &RMsg, now: i64) -> V
                     nconns: conns.len(),
                 });
             }
-            Op::Query { req, script } => {
+            Op::Query { req, script, .. } => {
                 if msg.ttl == 0 || *req as usize >= spec.reqs.len() {
                     continue;
                 }
@@ -400,6 +400,8 @@ pub struct MInfo {
     pub deadlock_in_init: usize,
     pub init_sends_to_other: usize,
     pub submodels: usize,
+    pub models: usize,
+    pub partial_reply_reads: usize,
     pub early_msgs_before_init: usize,
     pub sink_multi_group: usize,
     pub clone_conn_used: usize,
@@ -718,6 +720,14 @@ fn check_phase(b: &Bench, dag: bool, clones: bool, qualified: &[String], p: &Pha
                                     _ => None,
                                 })
                                 .collect();
+                            // a handler that reads only the first k items of the reply iterator
+                            let mut exp = exp;
+                            if let Some(Op::Query { take, .. }) = handler_ops(b, h.model, h.kind, &h.msg).get(o.idx) {
+                                if *take > 0 && exp.len() > *take as usize {
+                                    exp.truncate(*take as usize);
+                                    info.partial_reply_reads += 1;
+                                }
+                            }
                             info.queries_checked += 1;
                             if *r != exp {
                                 return Err(mfail(
@@ -982,6 +992,7 @@ pub fn check_mcase(c: &SCase, obs: &SObs) -> Result<MInfo, MFail> {
     let dag = is_dag(c);
     let clones = c.cmds.iter().any(|x| matches!(x, Cmd::Connect { .. }));
     info.submodels = b.models.iter().filter(|m| m.parent.is_some()).count();
+    info.models = b.models.len();
     if obs.overlap > 0 {
         return Err(mfail(&["C05"], "busy-flag-overlap", format!("{} handler entries found the model's busy flag already set", obs.overlap)));
     }
@@ -1244,7 +1255,7 @@ fn resolve_conn(f: MFocus, i: Option<usize>, n: usize, norph: usize, query: bool
 fn mop_strategy(nscripts: u16) -> BoxedStrategy<Op> {
     prop_oneof![
         6 => (0u8..3, 0..nscripts).prop_map(|(out, script)| Op::Send { out, script }),
-        3 => (0u8..2, 0..nscripts).prop_map(|(req, script)| Op::Query { req, script }),
+        3 => (0u8..2, 0..nscripts, prop_oneof![3 => Just(0u8), 1 => 1u8..3]).prop_map(|(req, script, take)| Op::Query { req, script, take }),
         1 => Just(Op::ReadTime),
     ]
     .boxed()
@@ -1293,8 +1304,10 @@ fn wide_bench_strategy() -> BoxedStrategy<Bench> {
         1usize..3,
         any::<bool>(),
         any::<bool>(),
+        // the leaves are sub-models of the hub (added while the hub is built) in one bench out of three
+        prop_oneof![2 => Just(false), 1 => Just(true)],
     )
-        .prop_map(|(nleaf, cap, hub_sends, leaf_init, leaf_replies)| {
+        .prop_map(|(nleaf, cap, hub_sends, leaf_init, leaf_replies, nested)| {
             let plain = |target: Target, tag: u16| Conn {
                 target,
                 kind: ConnKind::Plain,
@@ -1314,7 +1327,7 @@ fn wide_bench_strategy() -> BoxedStrategy<Bench> {
                 models.push(ModelSpec {
                     name: format!("leaf{}", i),
                     cap,
-                    parent: None,
+                    parent: if nested { Some(0) } else { None },
                     outs: vec![vec![plain(Target::Sink(0), 0)]],
                     reqs: vec![],
                     scripts: vec![vec![], if leaf_replies { vec![Op::Send { out: 0, script: 0 }] } else { vec![] }],
@@ -1655,6 +1668,15 @@ pub fn m_nontrivial(prop: &str, mt: bool, i: &MInfo) -> (bool, Vec<&'static str>
     if i.submodels > 0 {
         cl.push("has-sub-models");
     }
+    if i.models > 128 {
+        cl.push(">128-models");
+    }
+    if i.partial_reply_reads > 0 {
+        cl.push("reply-iterator-read-partially");
+    }
+    if i.submodels > 128 {
+        cl.push(">128-sub-models-of-one-parent");
+    }
     if i.sink_multi_group > 0 {
         cl.push("sink-holds->=2-sends-of-one-output");
     }
@@ -1671,7 +1693,7 @@ pub fn m_nontrivial(prop: &str, mt: bool, i: &MInfo) -> (bool, Vec<&'static str>
         "C05" => i.model_multi_handler > 0 && (i.suspended_ops > 0 || i.model_multi_thread > 0),
         "C06" => i.deadlocks + i.msglosses > 0 || (i.suspended_ops > 0 && i.max_models_in_cmd >= 3),
         "C14" => i.query2_filtered > 0 || i.qsource_multi > 0 || (i.clone_conn_used > 0 && i.handlers > 2),
-        "C16" => i.submodels > 0 && i.init_sends_to_other > 0,
+        "C16" => (i.submodels > 0 && i.init_sends_to_other > 0) || i.models > 128,
         "C17" => i.sink_multi_group > 0,
         _ => i.handlers > 0,
     };
